@@ -44,6 +44,21 @@ class Grammar:
             out.append(a["v"])
         return out
 
+    def alt_names_flat(self, name, depth=0):
+        """alt_names with references to silent pure-choice rules expanded in place (`lambda_term = _{ term }` is the same choice as term)"""
+        out = []
+        for n in self.alt_names(name):
+            if depth < 4 and n in self.rules and self.ty(n) == "silent":
+                try:
+                    sub = self.alt_names_flat(n, depth + 1)
+                except CheckerError:
+                    sub = None
+                if sub:
+                    out += sub
+                    continue
+            out.append(n)
+        return out
+
     def alt_names_safe(self, name):
         try:
             return self.alt_names(name)
